@@ -136,6 +136,47 @@ def lcpLemke (n : Nat) (Mm : Nat → Nat → α) (q d : Nat → α) (maxIter : N
     let o := lemkeRun n Mm q d maxIter tolPiv tolDiff
     ⟨getSolution n o.T o.basis, o.status == 0, o.status, o.numIter, some o.basis⟩
 
+/-! ### caller-supplied work / output buffers (`tableau=`, `basis=`, `z=`)
+
+  The three optional arguments are arrays the caller may pass pre-filled with anything (garbage,
+  NaN, the result of an earlier solve). The model takes their prior content as explicit inputs
+  and performs the writes of the code; the theorems `lcpLemkeBuf_eq` (Properties/C11.lean) state
+  that the prior content never influences the result — including on the trivial branch. -/
+
+/-- `z[:] = 0` (lcp_lemke.py 127 and 287): every entry of the caller's buffer is overwritten -/
+def zeroFill (_zbuf : Nat → α) : Nat → α := fun _ => 0
+
+/-- `_initialize_tableau` as writes into the caller's `n × (2n+2)` buffer: columns `0..n-1`
+    (zeroed, then the diagonal), `n..2n-1`, `2n` and `-1`; any other position keeps the old
+    content (there is none for the documented shape). -/
+def initTableauBuf (n : Nat) (Mm : Nat → Nat → α) (q d : Nat → α) (tbuf : M α) : M α :=
+  M.tab n (2 * n + 2) fun i j =>
+    if j < n then (if j = i then 1 else 0)
+    else if j < 2 * n then - Mm i (j - n)
+    else if j = 2 * n then - d i
+    else if j = 2 * n + 1 then q i
+    else tbuf.get i j
+
+/-- `for i in range(n): basis[i] = i` on the caller's length-`n` buffer -/
+def initBasisBuf (_bbuf : Nat → Nat) : Nat → Nat := fun i => i
+
+/-- `_get_solution` on the caller's `z` buffer: `z[:] = 0`, then the basic `z` entries -/
+def getSolutionBuf (n : Nat) (T : M α) (basis : Nat → Nat) (zbuf : Nat → α) : Nat → α :=
+  (List.range n).foldl (fun z i =>
+    if n ≤ basis i ∧ basis i < 2 * n then setVec z (basis i - n) (T.get i (T.nc - 1)) else z)
+    (zeroFill zbuf)
+
+/-- `lcp_lemke(M, q, d, max_iter, piv_options, tableau=tbuf, basis=bbuf, z=zbuf)` -/
+def lcpLemkeBuf (n : Nat) (Mm : Nat → Nat → α) (q d : Nat → α) (maxIter : Nat) (tolPiv tolDiff : α)
+    (tbuf : M α) (bbuf : Nat → Nat) (zbuf : Nat → α) : LCPResult α :=
+  if trivialExit n q then ⟨zeroFill zbuf, true, 0, 0, none⟩
+  else
+    let T0 := initTableauBuf n Mm q d tbuf
+    let b0 := initBasisBuf bbuf
+    let r := firstPivotRow n q d tolDiff
+    let o := lemkeLoop n tolPiv tolDiff (maxIter - 1) (pivot T0 (2 * n) r) (setBasis b0 r (2 * n)) (r + n) 1
+    ⟨getSolutionBuf n o.T o.basis zbuf, o.status == 0, o.status, o.numIter, some o.basis⟩
+
 /-- Numba's default error model: `q[i] / d[i]` (lcp_lemke.py 148, 150) raises
     `ZeroDivisionError` when `d[i] == 0`; the loop evaluates it for every `i < n`, after the
     trivial-exit test. No other division of the run can have a zero divisor (pivot elements are
@@ -284,6 +325,20 @@ def handle (toks : List String) : String :=
         | some res => showResult showFloatBits n res
       else "bad-op"
     | _, _, _, _, _, _, _ => "bad-op"
+  | "lemkefb" :: r =>
+    -- IEEE doubles with caller-supplied buffers (prior content on the wire)
+    match kvNat r "n", kvFloatMat r "M", kvFloats r "q", kvFloats r "d", kvNat r "maxiter",
+          (kv r "tolpiv").bind parseFloat?, (kv r "toldiff").bind parseFloat?,
+          kvFloatMat r "tbuf", kvInts r "bbuf", kvFloats r "zbuf" with
+    | some n, some Mm, some q, some d, some mi, some tp, some td, some tb, some bb, some zb =>
+      if wellShaped n Mm q d && zb.length == n && bb.length == n && tb.length == n &&
+          tb.all (fun row => row.length == 2 * n + 2) then
+        if divByZero n (fnOfList q) (fnOfList d) then "ERR:ZeroDivisionError"
+        else showResult showFloatBits n
+          (lcpLemkeBuf n (fnOfMat Mm) (fnOfList q) (fnOfList d) mi tp td (M.ofRows tb)
+            (fun i => (bb.getD i 0).toNat) (fnOfList zb))
+      else "bad-op"
+    | _, _, _, _, _, _, _, _, _, _ => "bad-op"
   | "lemkebuggy" :: r =>
     -- pre-repair run (documentation only; not compared with the code)
     match kvNat r "n", kvRatMat r "M", kvRats r "q", kvRats r "d", kvNat r "maxiter" with
